@@ -53,6 +53,11 @@ CHECKS = {
             'Five sub-checks: chunked/chunked_iter (list, tuple, one-shot iterators, str, bytes; size drawn relative to the length; count; fill), windowed/pairwise (+_iter, fill/end), split/split_iter with scalar, set, list, callable and None separators and maxsplit - the oracle is literally str.split on an encoding of the items as characters - plus lstrip/rstrip/strip vs str.*strip, unique/redundant/bucketize/partition against first-occurrence and counting references (callable, attribute-name and list keys, value_transform, key_filter), and chunk_ranges against the clauses of the statement (random large parameters plus an exhaustive sweep of all small parameter tuples: 16 000 in quick, 113 000 in thorough).',
             'Trusts CPython str.split/str.strip/slicing; parameters outside the documented domain (size < 1 other than the ValueError check, negative maxsplit, overlap >= chunk_size) are not generated.',
             'DESIGN.md section 2, C09'),
+    'C08': ('exploration',
+            'Hypothesis-generated construction programs (shared sub-objects, reference cycles) and visit decision tables; oracle = memoised recursive rebuild compared by a lock-step graph walk that also checks the sharing relation; research paths replayed through get_path',
+            'Inputs are generated as programs that build nested dict/list/tuple/set/frozenset structures by referring to earlier objects (aliasing/DAGs by construction, hashability enforced constructively) plus patch instructions that close cycles. remap output is compared with an independent recursive reference: same types, dict key order, sequence order, set members, identical sharing (bijection of node identities), identical visit call log; default callbacks give an equal copy sharing no mutable container; the input snapshot (structure + identities) is unchanged; every research (path, value) is fetched again with get_path (identity). Paths through sets are a recorded known finding (enumeration index is not subscriptable).',
+            'Trusts the 35-line recursive reference; cycles whose back-edge targets a tuple/frozenset under construction are only checked for termination/type/non-mutation; visit functions are decision tables, not arbitrary code.',
+            'DESIGN.md section 2, C08'),
 }
 
 NOT_YET = 'check not built yet in this revision of /verif (work in progress; see DESIGN.md section 8)'
